@@ -19,12 +19,12 @@ theorem new_ok    : (new : M (State α)) = .ok (s0 : State α) := by
 
 @[simp] def abs  (s : State α) : Option α := s.out
 
-theorem upd_eq   (s : State α) (x : α)  :
+theorem upd_eq   (s : State α) (x : α)   :
     (update  s x).map (abs ) = (echoV).upd (abs  s) x := by
   simp only [update, wrap, mapV, binop, echoV, abs]; gen_tie
-theorem upd_cfg  (s s' : State α) (x : α) : update  s x = .ok s' → True := by
+theorem upd_cfg  (s s' : State α) (x : α)  : update  s x = .ok s' → True := by
   simp only [update, echoV]; gen_tie
-theorem last_eq   (s : State α)  : last  s = (echoV).last (abs  s) := by
+theorem last_eq   (s : State α)   : last  s = (echoV).last (abs  s) := by
   simp only [last, wrap, mapV, binop, echoV, abs]; gen_tie
 
 def sim    : Sim (mkView (s0 : State α) (update ) (last )) (echoV) where
@@ -34,15 +34,15 @@ def sim    : Sim (mkView (s0 : State α) (update ) (last )) (echoV) where
   init_abs := by rfl
   upd := fun (s : State α) x hs => by
     skip
-    have := upd_eq  s x  
+    have := upd_eq  s x   
     exact this
   upd_cfg := fun (s : State α) x s' hs h => by
     skip
-    have := upd_cfg  s s' x h
+    have := upd_cfg  s s' x  h
     simp_all
   last := fun (s : State α) hs => by
     skip
-    have := last_eq  s  
+    have := last_eq  s   
     exact this
 
 /-- the Rust text of `Echo`, as translated, and the model agree on every input: same answers, same panics -/
